@@ -348,6 +348,12 @@ func (a Float) M__bool__() (Object, error) {
 }
 
 func (a Float) M__int__() (Object, error) {
+	if math.IsNaN(float64(a)) {
+		return nil, ExceptionNewf(ValueError, "cannot convert float NaN to integer")
+	}
+	if math.IsInf(float64(a), 0) {
+		return nil, ExceptionNewf(OverflowError, "cannot convert float infinity to integer")
+	}
 	// Float(IntMax) rounds to 2**63 which does not fit an Int
 	if a >= IntMin && a < IntMax {
 		return Int(a), nil
